@@ -417,6 +417,18 @@ func addEnvIntrinsics(m map[string]intrinsic) {
 			args[i] = p.seqAt(s, p.ctx.BV(64, uint64(i)))
 		}
 		p.idealChecksumAxioms(fmt.Sprintf("xxh3lo_%d", n), args, lo)
+		// inputs of different lengths do not collide either
+		type app struct {
+			n  int
+			lo *Term
+		}
+		all, _ := p.userData["xxh3apps"].([]app)
+		for _, o := range all {
+			if o.n != n {
+				p.addPC(p.ctx.Not(p.ctx.Eq(lo, o.lo)))
+			}
+		}
+		p.userData["xxh3apps"] = append(all[:len(all):len(all)], app{n, lo})
 		return []Value{StructV{F: []Value{IntV{T: hi}, IntV{T: lo}}}}
 	}
 }
